@@ -85,6 +85,13 @@ Proof. exact apply_unapply_str. Qed.
 Theorem C18_absolute_has_no_scheme : forall parts, uri_scheme (join true true parts) = None.
 Proof. exact absolute_has_no_scheme. Qed.
 
+(* ... and for relative patterns without a scheme that begin with a parameter: a value is written with its colons
+   escaped, so nothing in front of the first slash can be taken for a scheme (`:host/status` with host = a:b) *)
+Theorem C18_relative_leading_parameter_has_no_scheme : forall m s segs parts,
+  values_are_bytes m -> s_param s = true -> render_all m (s :: segs) = Some parts ->
+  uri_scheme (join true false parts) = None.
+Proof. exact relative_leading_parameter_has_no_scheme. Qed.
+
 (* the premises are met: the pattern swim:/unit/:id filled with id = "a b" *)
 Theorem C18_apply_unapply_witness :
   let p := {| p_text := []; p_scheme := Some [115; 119; 105; 109]; p_abs := true;
